@@ -33,5 +33,7 @@ Definition table : list (string * (sx -> sx)) := [
   ("make.depfile_text", fun a => sx_str
       (depfile_text (cls_of (nth_sx 0 a)) (un_str (nth_sx 1 a)) (un_strs (nth_sx 2 a)) (un_bool (nth_sx 3 a))));
   ("make.patsubst_dir", fun a => sx_str (patsubst_dir_text (un_str (nth_sx 0 a))));
-  ("make.sentinel_of", fun a => sx_str (sentinel_of (un_str (nth_sx 0 a))))
+  ("make.sentinel_of", fun a => sx_str (sentinel_of (un_str (nth_sx 0 a))));
+  (* the parent directory of every output of one step, in output order *)
+  ("make.directory_deps", fun a => sx_list sx_str (directory_deps (un_strs (nth_sx 0 a))))
 ]%string.
